@@ -36,7 +36,8 @@ FeatPoolSmall == {a, B, ab}
 
 (* fields other than FORM_TYPE; within one form the vars must differ *)
 FieldPool == {Fd(a, <<a>>), Fd(ab, <<a, ab>>), Fd(B, <<>>), Fd(a, <<psi, B>>), Fd(psi, <<B>>)}
-FieldPoolSmall == {Fd(a, <<a>>), Fd(ab, <<a, ab>>), Fd(B, <<psi, B>>)}
+(* the small pool holds a field WITHOUT value (7.3: "var<" and nothing else) and an empty-string value too *)
+FieldPoolSmall == {Fd(a, <<a>>), Fd(ab, <<a, ab>>), Fd(B, <<psi, B>>), Fd(aa, <<>>), Fd(psi, <<E>>)}
 DistinctVars(fs) == \A i, j \in 1..Len(fs) : fs[i].var = fs[j].var => i = j
 Bodies(P, n) == {fs \in SubsetSeqs(P, n) : DistinctVars(fs)}
 
